@@ -18,6 +18,9 @@ pub enum StoreFault {
     /// put writes everything but reports an error
     PutAmbiguous,
     GetError,
+    /// get of a segment or checkpoint object returns the bytes with one bit flipped (the stored object is
+    /// intact): these formats carry checksums the readers validate. Other objects: as GetError.
+    GetCorrupt,
     RenameError,
     DeleteError,
     /// list omits the last object
@@ -30,6 +33,7 @@ impl StoreFault {
             StoreFault::PutTorn(_) => "store_put_torn",
             StoreFault::PutAmbiguous => "store_put_ambiguous",
             StoreFault::GetError => "store_get_error",
+            StoreFault::GetCorrupt => "store_get_corrupt",
             StoreFault::RenameError => "store_rename_error",
             StoreFault::DeleteError => "store_delete_error",
             StoreFault::ListIncomplete => "store_list_incomplete",
@@ -150,6 +154,12 @@ impl ObjectStore for SimStore {
             let mut applied = None;
             let res = match fault {
                 Some(StoreFault::GetError) => { applied = fault; Err(SimStore::injected("get error")) }
+                Some(StoreFault::GetCorrupt) => {
+                    applied = fault;
+                    if key.contains("/segments/") || key.contains("/checkpoints/") {
+                        d.objs.get(key).cloned().map(|mut b| { if !b.is_empty() { let i = b.len() / 2; b[i] ^= 0x10; } b }).ok_or_else(|| IoError::new(ErrorKind::NotFound, format!("not found: {}", key)))
+                    } else { Err(SimStore::injected("get error")) }
+                }
                 _ => d.objs.get(key).cloned().ok_or_else(|| IoError::new(ErrorKind::NotFound, format!("not found: {}", key))),
             };
             if let Some(f) = applied { d.fired.push((op, f)); }
